@@ -26,7 +26,7 @@ func init() {
 		Assumptions: []string{"Go crypto and math/big are correct"},
 		Real:        []string{"github.com/veraison/go-cose (key.go, signer.go, verifier.go, ecdsa.go, ed25519.go)", "github.com/fxamacker/cbor/v2", "Go crypto"},
 		Stubs:       []string{"key directory (COSE_Key bytes in memory)", "peer key writer (reference encoder)", "entropy source"},
-		QuickRuns:   6000, ThoroughRuns: 300000,
+		QuickRuns:   80000, ThoroughRuns: 1200000,
 	}
 	Scenarios["C15"] = scenarioC15
 	Infos["C15"] = ScenarioInfo{
@@ -38,7 +38,7 @@ func init() {
 		Assumptions: []string{"reference key predicate transcribes the property statement; a coordinate parameter of a non-bstr type is not judged", "key_ops entries are read as RFC 9052 integers or RFC 7517 names"},
 		Real:        []string{"github.com/veraison/go-cose (key.go)", "github.com/fxamacker/cbor/v2", "Go crypto"},
 		Stubs:       []string{"key store with fault injection", "key writer (reference encoder)", "entropy source"},
-		QuickRuns:   12000, ThoroughRuns: 500000,
+		QuickRuns:   400000, ThoroughRuns: 6000000,
 	}
 }
 
